@@ -307,9 +307,12 @@ func runStateful(c kase, cuts []int, restart []bool, dir string, check func(a *d
 		for i := b[0]; i < b[1]; i++ {
 			logs = append(logs, c.Recs[i].accessLog(i))
 		}
+		// (records of the gateway's own traffic are dropped by Run before the convergence pre-pass sees them)
 		us := make([]string, 0, len(logs))
-		for _, l := range logs {
-			us = append(us, l.URL)
+		for i := b[0]; i < b[1]; i++ {
+			if !c.Recs[i].In {
+				us = append(us, c.Recs[i].U)
+			}
 		}
 		tree.begin(us)
 		failWrite := bi < len(c.WriteFail) && c.WriteFail[bi] && len(logs) > 0
@@ -1510,7 +1513,7 @@ func replay(t *testing.T, path string) {
 	r.Case()
 	o := evaluate(c, scratchDir(t))
 	dump := func(name string, a discovery.Agg, i runInfo) {
-		t.Logf("%s: batches=%d rekeys=%d loud=%d silent=%d", name, i.batches, i.rekeys, i.loud, i.silent)
+		t.Logf("%s: batches=%d rekeys=%d loud=%d silent=%d unseen=%d miss=%d", name, i.batches, i.rekeys, i.loud, i.silent, i.unseen, i.miss)
 		for _, k := range sortedKeys(a.Endpoints) {
 			t.Logf("    %-6s %-50s %+v", k.Method, k.URL, a.Endpoints[k])
 		}
